@@ -344,6 +344,36 @@ func (e *specEnv) callExpr(n *ECall, hint types.Type) sv {
 		}
 		return sv{Val: calls[k-1][i]}
 	}
+	if n.Fun == "callres" {
+		// callres(Name, k, i): i-th result of the k-th call (1-based, in program order) to a function named Name
+		if len(n.Args) != 3 || e.fr == nil {
+			sfail("callres(Name, k, i) is only available in function contracts")
+		}
+		id, ok := n.Args[0].(*EIdent)
+		kk, ok2 := n.Args[1].(*EInt)
+		ii, ok3 := n.Args[2].(*EInt)
+		if !ok || !ok2 || !ok3 {
+			sfail("callres(Name, k, i) needs a name and two literals")
+		}
+		var k, i int
+		fmt.Sscan(kk.Val, &k)
+		fmt.Sscan(ii.Val, &i)
+		calls := e.fr.resLog[id.Name]
+		if k < 1 || k > len(calls) {
+			sfail("callres: function makes %d call(s) to %s, call %d requested", len(calls), id.Name, k)
+		}
+		r := calls[k-1]
+		if r.tup != nil {
+			if i < 0 || i >= len(r.tup) {
+				sfail("callres: call has %d result(s)", len(r.tup))
+			}
+			return sv{Val: r.tup[i]}
+		}
+		if i != 0 {
+			sfail("callres: call has one result")
+		}
+		return sv{Val: r}
+	}
 	if n.Fun == "call" {
 		if len(n.Args) < 1 {
 			sfail("call(f, args...)")
